@@ -624,4 +624,146 @@ theorem step_appendToFamily_ok (s : S) (i : Nat) (txt : Str) (ind : Int) (ai : B
         · simp at hg; omega
         · simpa using hai
 
+/-! ## what the blank-line filter of `bootstrap` can remove -/
+
+theorem bannerWalk_keep_length (d : Char) (p idx : Nat) (rest : List Str) (t : T) :
+    (bannerWalk d p idx rest t).keep.length = t.keep.length := by
+  induction rest generalizing idx t with
+  | nil => rfl
+  | cons x xs ih =>
+    simp only [bannerWalk]
+    split
+    · rfl
+    · rw [ih]; simp [setKeep, reparent]
+
+theorem markBanner_keep_length (t : T) (p : Nat) (txt : Str) :
+    (markBanner t p txt).keep.length = t.keep.length := by
+  unfold markBanner
+  split
+  · simp [setKeep]
+  · split
+    · simp [setKeep]
+    · rw [bannerWalk_keep_length]; simp [setKeep]
+
+theorem markBannersFrom_keep_length (i : Nat) (l : List Str) (t : T) :
+    (markBannersFrom i l t).keep.length = t.keep.length := by
+  induction l generalizing i t with
+  | nil => rfl
+  | cons x xs ih =>
+    simp only [markBannersFrom]
+    rw [ih]
+    split
+    · exact markBanner_keep_length t i x
+    · rfl
+
+theorem macroWalk_keep_length (p idx : Nat) (rest : List Str) (t : T) :
+    (macroWalk p idx rest t).keep.length = t.keep.length := by
+  induction rest generalizing idx t with
+  | nil => rfl
+  | cons x xs ih =>
+    simp only [macroWalk]
+    split
+    · simp [setKeep, reparent]
+    · rw [ih]; simp [setKeep, reparent]
+
+theorem markMacrosFrom_keep_length (i : Nat) (l : List Str) (t : T) :
+    (markMacrosFrom i l t).keep.length = t.keep.length := by
+  induction l generalizing i t with
+  | nil => rfl
+  | cons x xs ih =>
+    simp only [markMacrosFrom]
+    rw [ih]
+    split
+    · rw [macroWalk_keep_length]; simp [setKeep]
+    · rfl
+
+theorem link_keep_length (cfg : Cfg) (ls : List Str) : (link cfg ls).keep.length = ls.length := by
+  unfold link markMacros markBanners
+  split
+  · rw [markMacrosFrom_keep_length, markBannersFrom_keep_length]; simp
+  · rw [markBannersFrom_keep_length]; simp
+
+theorem keptTexts_aux_sublist (texts : List Str) (keep : List Bool) :
+    ((texts.zip keep).filterMap
+      (fun tk => if !(strip tk.1).isEmpty || tk.2 then some tk.1 else none)).Sublist texts := by
+  induction texts generalizing keep with
+  | nil => simp
+  | cons a as ih =>
+    cases keep with
+    | nil => simp
+    | cons b bs =>
+      simp only [List.zip_cons_cons, List.filterMap_cons]
+      split
+      · exact (ih bs).cons a
+      · rename_i x hx
+        split at hx
+        · cases hx; exact (ih bs).cons_cons a
+        · cases hx
+
+theorem keptTexts_aux_nonblank (texts : List Str) (keep : List Bool) (h : keep.length = texts.length) :
+    ((texts.zip keep).filterMap
+      (fun tk => if !(strip tk.1).isEmpty || tk.2 then some tk.1 else none)).filter (fun x => !isBlank x)
+      = texts.filter (fun x => !isBlank x) := by
+  induction texts generalizing keep with
+  | nil => simp
+  | cons a as ih =>
+    cases keep with
+    | nil => simp at h
+    | cons b bs =>
+      have := ih bs (by simpa using h)
+      simp [isBlank] at this
+      simp only [List.zip_cons_cons, List.filterMap_cons, List.filter_cons]
+      cases hb : (strip a).isEmpty <;> cases b <;> simp [isBlank, hb, this]
+
+/-- **what a bootstrap does to the texts**: it can only drop lines, and only blank ones
+— every non-blank line survives, with its text, in order -/
+theorem bootstrapFuel_texts (cfg : Cfg) (fuel : Nat) (ls : List Str) :
+    (bootstrapFuel cfg fuel ls).texts.Sublist ls ∧
+    (bootstrapFuel cfg fuel ls).texts.filter (fun x => !isBlank x) = ls.filter (fun x => !isBlank x) := by
+  induction fuel generalizing ls with
+  | zero => simp only [bootstrapFuel, link_texts_eq]; exact ⟨List.Sublist.refl _, trivial⟩
+  | succ f ih =>
+    simp only [bootstrapFuel]
+    have hk1 : (keptTexts (link cfg ls)).Sublist ls := by
+      have : (keptTexts (link cfg ls)).Sublist (link cfg ls).texts :=
+        keptTexts_aux_sublist (link cfg ls).texts (link cfg ls).keep
+      rw [link_texts_eq] at this; exact this
+    have hk2 : (keptTexts (link cfg ls)).filter (fun x => !isBlank x) = ls.filter (fun x => !isBlank x) := by
+      have : (keptTexts (link cfg ls)).filter (fun x => !isBlank x)
+          = (link cfg ls).texts.filter (fun x => !isBlank x) :=
+        keptTexts_aux_nonblank (link cfg ls).texts (link cfg ls).keep
+          (by rw [link_keep_length, link_texts_eq])
+      rw [link_texts_eq] at this; exact this
+    split
+    · split
+      · have := ih (keptTexts (link cfg ls))
+        exact ⟨this.1.trans hk1, this.2.trans hk2⟩
+      · rw [link_texts_eq]; exact ⟨List.Sublist.refl _, rfl⟩
+    · rw [link_texts_eq]; exact ⟨List.Sublist.refl _, rfl⟩
+
+theorem bootstrap_texts (cfg : Cfg) (ls : List Str) :
+    (bootstrap cfg ls).texts.Sublist ls ∧
+    (bootstrap cfg ls).texts.filter (fun x => !isBlank x) = ls.filter (fun x => !isBlank x) :=
+  bootstrapFuel_texts cfg _ ls
+
+theorem fresh_texts_fixed (s : S) (hd : s.dirty = false) (hinv : FreshInv s) :
+    s.texts = (bootstrap s.cfg s.texts).texts := by
+  have h := hinv hd
+  have h2 := h.2
+  rw [h.1, parse_eq_bootstrap] at h2
+  exact h2
+
+/-- with auto-commit on, a step from a committed state leaves the texts that one bootstrap
+makes of what the same step leaves with auto-commit off -/
+theorem auto_step_texts (s : S) (op : Op) (ha : s.auto = true) (hd : s.dirty = false) (hinv : FreshInv s) :
+    (step s op).1.texts = (bootstrap s.cfg (step { s with auto := false } op).1.texts).texts ∧
+    (step s op).2 = (step { s with auto := false } op).2 := by
+  have hfix := fresh_texts_fixed s hd hinv
+  cases op <;> simp only [step]
+  all_goals repeat' split
+  all_goals first
+    | exact ⟨hfix, rfl⟩
+    | (simp [autoCommit, ha, commit, bootstrap_idempotent]; done)
+    | exact ⟨hfix, trivial⟩
+
 end Ccp.Edit
